@@ -622,6 +622,7 @@ inductive Emit (i0 i : Input) : Prop
         (if !(GoStrings.trimSpace (i0.consumedRev.takeWhile (· != 10)).reverse).isEmpty
          then TokKind.eolComment else TokKind.comment))
       (hcm : i.token.kind = .comment → i.commentsRev = i0.commentsRev)
+      (hcm2 : i.token.kind = .eolComment → ∃ c : Comment, c.suffix = true ∧ i.commentsRev = c :: i0.commentsRev)
       (ht : CommentOK i.token.text) : Emit i0 i
   | newline (hk : i.token.kind = .punct 10) (ht : i.token.text = [10]) (hrem : i0.remaining = 10 :: i.remaining)
       (hc : i.consumedRev = 10 :: i0.consumedRev) (hcm : i.commentsRev = i0.commentsRev) : Emit i0 i
@@ -652,14 +653,21 @@ theorem readToken_emits (j i' : Input) (h : readToken j = .ok i') :
       obtain ⟨t, ht⟩ := peekPrefix_slashes hc.2
       have hok := commentOK_of_slashes t
       rw [← ht, ← htext] at hok
-      refine .comment hc.2 hrem hcons hkind ?_ hok
-      intro hk
-      rw [hkind] at hk
-      split at hk
-      · cases hk
-      · rename_i hs
-        simp only [hs, Bool.false_eq_true, if_false] at hcomm
-        exact hcomm
+      refine .comment hc.2 hrem hcons hkind ?_ ?_ hok
+      · intro hk
+        rw [hkind] at hk
+        split at hk
+        · cases hk
+        · rename_i hs
+          simp only [hs, Bool.false_eq_true, if_false] at hcomm
+          exact hcomm
+      · intro hk
+        rw [hkind] at hk
+        split at hk
+        · rename_i hs
+          simp only [hs, if_true] at hcomm
+          exact ⟨_, rfl, hcomm⟩
+        · cases hk
     · split at h
       · cases h
       · rename_i hnc1 hnc2
@@ -830,7 +838,7 @@ theorem lex_emits_LexOK (i i' : Input) (h : readToken i = .ok i') : LexOK i'.tok
   obtain ⟨ws, i0, _, _, hem⟩ := readToken_emits i i' h
   cases hem with
   | eof hk ht _ _ _ _ => rw [hk, ht]; exact .eof
-  | comment _ _ _ hk _ ht =>
+  | comment _ _ _ hk _ _ ht =>
     rw [hk]
     split
     · exact .eolComment _ ht
